@@ -43,8 +43,10 @@ class CallModel:
             "int|str": lambda: am.union([am.typed(int), am.typed(str)]), "Literal[1]": lambda: am.known(1),
         }[a]()
 
-    def run(self, params: Sequence[CParam], positionals: Sequence[Any], keywords: Dict[str, Any]) -> Any:
-        """-> (is_error, [messages]) or ("crash", why)"""
+    def run(self, params: Sequence[CParam], positionals: Sequence[Any], keywords: Dict[str, Any], evaluator_probe: Optional[List[Any]] = None) -> Any:
+        """-> (is_error, [messages]) or ("crash", why).  A parameter's has_default may be "..." (the default is
+        the Ellipsis literal).  With evaluator_probe (a list) the signature gets an evaluator that records the
+        variables and positions handed to it."""
         am = self.am
         self.unannotated = amod.V("AnyValue", source=Sym("AnySource.unannotated"))
         errors: List[str] = []
@@ -79,7 +81,7 @@ class CallModel:
             name = f"p{i}"
             sig_params[name] = Obj(
                 "SigParameter", name=name, kind=Sym(f"ParameterKind.{kind}"),
-                default=attach(am.known(1)) if has_default else None,  # an ill-typed default is exempt; an equal explicit argument is not
+                default=(attach(am.known(Ellipsis)) if has_default == "..." else attach(am.known(1))) if has_default else None,  # an ill-typed default is exempt; an equal explicit argument is not
                 annotation=attach(self.annotation(ann)), is_unnamed=lambda: False,
             )
         ret = amod.V("TypedValue", typ=bytes, literal_only=False)
@@ -88,6 +90,9 @@ class CallModel:
             impl=None, evaluator=None, allow_call=False, is_asynq=False,
         )
         sig._attrs["_apply_annotated_constraints"] = lambda raw_return, composites, ctx_: raw_return
+        if evaluator_probe is not None:
+            sig._attrs["evaluator"] = Obj("Evaluator", evaluate=lambda ectx: (ret, []))
+            it.funcs["EvalContext"] = lambda args: (evaluator_probe.append((dict(args[0]), dict(args[1]))), Obj("EvalContext"))[1]
 
         def composite(args, kwargs=None):
             return Obj("Composite", value=args[0], varname=(args[1] if len(args) > 1 else None), node=(args[2] if len(args) > 2 else None))
@@ -102,7 +107,7 @@ class CallModel:
             return Obj("CallReturn", **d)
 
         call_return.wants_kwargs = True  # type: ignore[attr-defined]
-        it.funcs.update({"Composite": composite, "CallReturn": call_return, "AnyValue": lambda args: amod.V("AnyValue", source=args[0] if args else None)})
+        it.funcs.update({"Composite": composite, "CallReturn": call_return, "AnyValue": lambda args: amod.V("AnyValue", source=args[0] if args else None), "KnownValue": lambda args: attach(am.known(args[0]))})
         old_err = it.funcs["CanAssignError"]
         it.funcs["CanAssignError"] = lambda args: Obj("CanAssignError", message=str(args[0]) if args else "", get_error_code=lambda: None)
         for name, fn in self.sig_methods.items():
